@@ -196,6 +196,9 @@ def ev1_ag3(m, run):
         if data is None:
             raise AnalysisError('%s.data property not found' % (owner.name,))
         produced = ag.dict_keys_built(data.node)
+        # ... and as the getter actually produces them, interpreted on an object of the concrete class (whatever helper assembles the dictionary)
+        from .. import skel_drivers as _sdd
+        real = _sdd.data_dictionary(m, pdim)
         for meth, want in (('evaluate', want_eval), ('derivatives', want_der)):
             fi = m.lookup(ck, meth, 'methods')
             if fi is None or fi.cls == 'AbstractEvaluator':
@@ -209,12 +212,16 @@ def ev1_ag3(m, run):
                 continue
             must, opt = ag.dict_keys_read(fi.node, params_of(fi.node)[1])
             for k, node in sorted(must.items()):
-                okk = k in produced
+                okk = (k in real) if real is not None else (k in produced)
                 run.ob('AG3.data-keys', 'evaluators.%s.%s :: datadict[%r]' % (cname, meth, k), okk,
                        'produced by %s' % data.key if okk else 'key %r is read but %s produces only %s' % (k, data.key, sorted(produced)), site(fi, node))
                 # arity per axis: a key indexed [0] in a curve evaluator must be a tuple in the curve's data
                 par = getattr(node, '_sa_parent', None)
-                if okk and isinstance(par, ast.Subscript) and par.value is node and isinstance(par.slice, ast.Constant) and isinstance(par.slice.value, int):
+                if okk and real is not None and isinstance(par, ast.Subscript) and par.value is node and isinstance(par.slice, ast.Constant) and isinstance(par.slice.value, int):
+                    seq = isinstance(real[k], (list, tuple))
+                    run.ob('AG3.data-keys', 'evaluators.%s.%s :: datadict[%r][%d] is per-direction' % (cname, meth, k, par.slice.value), seq,
+                           'the value is a per-direction sequence' if seq else 'the value %r is not a sequence' % (real[k],), site(fi, node))
+                elif okk and isinstance(par, ast.Subscript) and par.value is node and isinstance(par.slice, ast.Constant) and isinstance(par.slice.value, int):
                     v = produced[k]
                     seq = isinstance(v, ast.Tuple) or (isinstance(v, ast.Call) and norm(v.func) in ('tuple', 'list')) or \
                         (isinstance(v, ast.Attribute) and v.attr in ('sample_size', 'delta') and pdim > 1)
